@@ -1,9 +1,11 @@
 package props
 
 import (
+	"fmt"
 	"go/ast"
 	"go/token"
 	"go/types"
+	"regexp"
 	"strings"
 
 	"golang.org/x/tools/go/packages"
@@ -38,6 +40,8 @@ func runC15(c *core.Ctx) {
 
 	c.Rule("C15.seek", "A1: bolt's Cursor.Seek lands on the next key when the sought one is absent: every point use of its result (a Delete/DeleteBucket/Put that follows) happens only on paths where the returned key was compared equal to the sought key; a scan that starts with Seek keeps a HasPrefix test of the returned key in its loop condition")
 
+	c.Rule("C15.keyshape", "A3: F40: dataKey and indexKey return <prefix> + <last parameter>: the object-supplied part (ID, index value) is appended as it is — not through path.Join/Clean or another many-to-one function — and used nowhere else; every directory scan tx.List(p) in IndexedStore scans exactly the prefix one of the two builders prepends")
+
 	pkg := c.P.Pkg("services/storage")
 	if pkg == nil {
 		c.Undecided("C15.txerr", "anchor:services/storage", token.NoPos, "package not loaded")
@@ -54,6 +58,7 @@ func runC15(c *core.Ctx) {
 	c15DoList(c, pkg)
 	c15Exists(c, pkg)
 	c15Seek(c, pkg)
+	c15KeyShape(c, pkg)
 }
 
 func c15Seek(c *core.Ctx, pkg *packages.Package) { c15SeekAs(c, pkg, "C15.seek") }
@@ -799,4 +804,202 @@ func c15Exists(c *core.Ctx, pkg *packages.Package) {
 				return "Exists,Get,UnmarshalBinary→object"
 			}})
 	}
+}
+
+// c15Normalisers are string functions that map different inputs to one output (or move a path out of its directory):
+// a key part that went through one of them no longer identifies the object it was built from.
+var c15Normalisers = map[string]bool{
+	"path.Join": true, "path.Clean": true, "path.Base": true, "path.Dir": true,
+	"path/filepath.Join": true, "path/filepath.Clean": true, "path/filepath.Base": true, "path/filepath.Dir": true,
+	"strings.ToLower": true, "strings.ToUpper": true, "strings.TrimSpace": true, "strings.Trim": true, "strings.TrimLeft": true,
+	"strings.TrimRight": true, "strings.TrimPrefix": true, "strings.TrimSuffix": true, "strings.Title": true, "strings.ToTitle": true,
+	"strings.Replace": true, "strings.ReplaceAll": true, "strings.Fields": true,
+}
+
+// c15Canon prints an expression with the given objects replaced by placeholders (receiver and parameters of the function it
+// comes from), so that the same prefix expression written in two methods prints the same.
+func c15Canon(info *types.Info, e ast.Expr, subst map[types.Object]string) string {
+	switch x := ast.Unparen(e).(type) {
+	case *ast.Ident:
+		if obj := info.Uses[x]; obj != nil {
+			if s, ok := subst[obj]; ok {
+				return s
+			}
+		}
+		return x.Name
+	case *ast.SelectorExpr:
+		return c15Canon(info, x.X, subst) + "." + x.Sel.Name
+	case *ast.BinaryExpr:
+		return c15Canon(info, x.X, subst) + " " + x.Op.String() + " " + c15Canon(info, x.Y, subst)
+	case *ast.CallExpr:
+		var args []string
+		for _, a := range x.Args {
+			args = append(args, c15Canon(info, a, subst))
+		}
+		return c15Canon(info, x.Fun, subst) + "(" + strings.Join(args, ", ") + ")"
+	}
+	return types.ExprString(e)
+}
+
+// c15KeyShape: F40. The part of a key that comes from the object (its ID, its index value) is appended to the directory prefix
+// as it is, and a directory scan uses that very prefix.
+func c15KeyShape(c *core.Ctx, pkg *packages.Package) {
+	info := pkg.TypesInfo
+	type shape struct {
+		prefix string // canonical prefix with receiver → RECV and the other parameters → $i
+		nparam int
+	}
+	shapes := map[string]shape{}
+	for _, name := range []string{"dataKey", "indexKey"} {
+		fn := c.Need("C15.keyshape", "services/storage", "IndexedStore", name)
+		if fn == nil {
+			continue
+		}
+		cons := "IndexedStore." + name
+		var params []*ast.Ident
+		for _, f := range fn.Decl.Type.Params.List {
+			params = append(params, f.Names...)
+		}
+		if len(params) == 0 {
+			c.Undecided("C15.keyshape", cons, fn.Decl.Pos(), "the key builder has no parameter")
+			continue
+		}
+		v := info.Defs[params[len(params)-1]]
+		subst := map[types.Object]string{}
+		if r := fn.Decl.Recv; r != nil && len(r.List) == 1 && len(r.List[0].Names) == 1 {
+			subst[info.Defs[r.List[0].Names[0]]] = "RECV"
+		}
+		for i, p := range params[:len(params)-1] {
+			subst[info.Defs[p]] = fmt.Sprintf("$%d", i)
+		}
+		uses := func(e ast.Node) bool {
+			found := false
+			ast.Inspect(e, func(nd ast.Node) bool {
+				if id, ok := nd.(*ast.Ident); ok && info.Uses[id] == v {
+					found = true
+				}
+				return !found
+			})
+			return found
+		}
+		good, decided := true, true
+		// the variable part never goes through a call, is never reassigned
+		ast.Inspect(fn.Decl.Body, func(nd ast.Node) bool {
+			switch x := nd.(type) {
+			case *ast.AssignStmt:
+				for _, l := range x.Lhs {
+					if id, ok := l.(*ast.Ident); ok && (info.Uses[id] == v || info.Defs[id] == v) {
+						good = false
+						c.Fail("C15.keyshape", cons+"#reassigned", x.Pos(), "the key builder rewrites its %s parameter before using it: two objects whose %ss differ may get one key", params[len(params)-1].Name, params[len(params)-1].Name)
+					}
+				}
+			case *ast.CallExpr:
+				if tv, ok := info.Types[x.Fun]; ok && tv.IsType() {
+					return true // a conversion
+				}
+				for _, a := range x.Args {
+					if !uses(a) {
+						continue
+					}
+					callee := core.Callee(info, x)
+					full := types.ExprString(x.Fun)
+					if callee != nil && callee.Pkg() != nil {
+						full = callee.Pkg().Path() + "." + callee.Name()
+					}
+					if c15Normalisers[full] {
+						good = false
+						c.Fail("C15.keyshape", cons+"#verbatim", x.Pos(), "the %s part of the key goes through %s, which is not one-to-one and may leave the directory: e.g. path.Join cleans \".\" and \"..\" (both pass the task/template/handler ID validators) to the directory itself or its parent, so the entry is written where list never scans — the object is stored, readable by Get and never listed; an empty value collapses into the next segment", params[len(params)-1].Name, full)
+					} else {
+						decided = false
+						c.Undecided("C15.keyshape", cons+"#verbatim", x.Pos(), "the %s part of the key goes through %s, whose effect on it is not known to this rule", params[len(params)-1].Name, full)
+					}
+				}
+			}
+			return true
+		})
+		// every return is PREFIX + v
+		nret := 0
+		ast.Inspect(fn.Decl.Body, func(nd ast.Node) bool {
+			if _, ok := nd.(*ast.FuncLit); ok {
+				return false
+			}
+			ret, ok := nd.(*ast.ReturnStmt)
+			if !ok || len(ret.Results) != 1 {
+				return true
+			}
+			nret++
+			be, ok := ast.Unparen(ret.Results[0]).(*ast.BinaryExpr)
+			if !ok || be.Op != token.ADD {
+				if good && decided {
+					decided = false
+					c.Undecided("C15.keyshape", cons+"#shape", ret.Pos(), "the key is not written as <prefix> + %s: %s", params[len(params)-1].Name, types.ExprString(ret.Results[0]))
+				}
+				return true
+			}
+			last, ok := ast.Unparen(be.Y).(*ast.Ident)
+			if !ok || info.Uses[last] != v || uses(be.X) {
+				good = false
+				c.Fail("C15.keyshape", cons+"#suffix", ret.Pos(), "the key must end with the %s parameter and use it nowhere else (prefix + %s); it is %s", params[len(params)-1].Name, params[len(params)-1].Name, types.ExprString(ret.Results[0]))
+				return true
+			}
+			pre := c15Canon(info, be.X, subst)
+			if sh, ok := shapes[name]; ok && sh.prefix != pre {
+				good = false
+				c.Fail("C15.keyshape", cons+"#one-prefix", ret.Pos(), "two returns build the key with different prefixes: %s and %s", sh.prefix, pre)
+			}
+			shapes[name] = shape{prefix: pre, nparam: len(params) - 1}
+			return true
+		})
+		if nret == 0 {
+			c.Undecided("C15.keyshape", cons+"#shape", fn.Decl.Pos(), "no single-value return found")
+			continue
+		}
+		if good && decided {
+			c.Ok("C15.keyshape", cons)
+		}
+	}
+	if len(shapes) == 0 {
+		return
+	}
+	// every directory scan in IndexedStore scans the prefix of one of the key builders
+	n := 0
+	for _, f := range core.AllFuncs(pkg) {
+		if core.RecvName(f.Decl) != "IndexedStore" {
+			continue
+		}
+		subst := map[types.Object]string{}
+		if r := f.Decl.Recv; r != nil && len(r.List) == 1 && len(r.List[0].Names) == 1 {
+			subst[info.Defs[r.List[0].Names[0]]] = "RECV"
+		}
+		ast.Inspect(f.Decl.Body, func(nd ast.Node) bool {
+			call, ok := nd.(*ast.CallExpr)
+			if !ok || len(call.Args) != 1 {
+				return true
+			}
+			sel, ok := call.Fun.(*ast.SelectorExpr)
+			if !ok || sel.Sel.Name != "List" {
+				return true
+			}
+			s, ok := info.Selections[sel]
+			if !ok || !isTxType(s.Recv()) {
+				return true
+			}
+			n++
+			got := c15Canon(info, call.Args[0], subst)
+			match := ""
+			for name, sh := range shapes {
+				re := regexp.QuoteMeta(sh.prefix)
+				for i := 0; i < sh.nparam; i++ {
+					re = strings.ReplaceAll(re, regexp.QuoteMeta(fmt.Sprintf("$%d", i)), `[^(),]+`)
+				}
+				if regexp.MustCompile("^" + re + "$").MatchString(got) {
+					match = name
+				}
+			}
+			cons := f.Decl.Name.Name + "#scan"
+			c.Check(match != "", "C15.keyshape", cons, call.Pos(), "the directory scan tx.List(%s) does not use the prefix any key builder prepends (%v): entries written by the builders and entries scanned here can differ, so objects are missing from, or foreign keys appear in, the listing/rebuild", types.ExprString(call.Args[0]), shapes)
+			return true
+		})
+	}
+	c.Floor("C15.keyshape", "directory scans in IndexedStore", n, 3)
 }
